@@ -30,13 +30,16 @@ P = [
     {'return': {}},
     {'return': {'expr': {'variable': 'x'}}},
     {'expr': {'expr': {'function': {'name': 'ff', 'args': []}}}},
+    {'jump': {'label': 'A', 'expr': {'function': {'name': 'ff', 'args': []}}}},
 ]
-P_NAMES = ['log a', 'log b', 'x = x + 1', 'jump A', 'jump B', 'jumpif (cc()) A', 'jumpif (cc()) B', 'A:', 'B:', 'return', 'return x', 'ff()']
+P_NAMES = ['log a', 'log b', 'x = x + 1', 'jump A', 'jump B', 'jumpif (cc()) A', 'jumpif (cc()) B', 'A:', 'B:', 'return', 'return x', 'ff()', 'jumpif (ff()) A']
 CALL_FF = 11
+JUMPIF_FF = 12
 NP = len(P)
 
 # Function bodies: every list of length <= 2 over P minus the call of ff (1 + 11 + 121 = 133 variants)
-FN_BODIES = [()] + [(i,) for i in range(NP) if i != CALL_FF] + [(i, j) for i in range(NP) if i != CALL_FF for j in range(NP) if j != CALL_FF]
+_FB = [i for i in range(NP) if i not in (CALL_FF, JUMPIF_FF)]
+FN_BODIES = [()] + [(i,) for i in _FB] + [(i, j) for i in _FB for j in _FB]
 
 
 def build(code):
